@@ -209,6 +209,61 @@ func runSpellings(payload []*Sx) *Sx {
 			problems = append(problems, "schema-explicit-coerced:differs")
 		}
 	}
+	// 4. mixed spellings inside one set / record: every combination of explicit and implicit members decodes to the same entity
+	{
+		var others []string
+		for _, c := range []string{"1.5", "2.5", "-0.0001"} {
+			if dc, err := types.ParseDecimal(c); err == nil && !dc.Equal(dec) {
+				others = append(others, c)
+			}
+		}
+		d2, d3 := others[0], others[1]
+		ents := []string{`{"type":"User","id":"m1"}`, otherImplicit, `{"type":"User","id":"m3"}`}
+		decs := []string{dec.String(), d2, d3}
+		for mask := 0; mask < 8; mask++ {
+			sd, sy, sdE, syE := "", "", "", ""
+			for i := 0; i < 3; i++ {
+				sep := ""
+				if i > 0 {
+					sep = ","
+				}
+				sdE += sep + extn("decimal", decs[i])
+				syE += sep + `{"__entity":` + ents[i] + `}`
+				if mask&(1<<i) != 0 {
+					sd += sep + extn("decimal", decs[i])
+					sy += sep + `{"__entity":` + ents[i] + `}`
+				} else {
+					sd += sep + jsonOf(decs[i])
+					sy += sep + ents[i]
+				}
+			}
+			attrs := func(sd, sy string) string {
+				return `{"d":` + extn("decimal", dec.String()) + `,"ip":` + extn("ip", ip.String()) + `,"dt":` + extn("datetime", dt.String()) +
+					`,"du":` + extn("duration", du.String()) + `,"e":{"__entity":` + otherImplicit + `},"sd":[` + sd + `],"r":{"x":` +
+					jsonOf(dec.String()) + `,"y":[` + sy + `]},"l":1,"s":"x"}`
+			}
+			doc := func(a string) string { return `[{"uid":{"type":"User","id":"u"},"parents":[],"attrs":` + a + `,"tags":{}}]` }
+			var want types.EntityMap
+			if err := json.Unmarshal([]byte(doc(attrs(sdE, syE))), &want); err != nil {
+				problems = append(problems, "schema-mixed-reference:error")
+				break
+			}
+			// the reference has r.x explicit
+			var got exptypes.EntityMap
+			if err := got.UnmarshalJSONWithSchema([]byte(doc(attrs(sd, sy))), rs); err != nil {
+				problems = append(problems, fmt.Sprintf("schema-mixed-%d:error:%s", mask, sanitize(err.Error())))
+			} else {
+				var wantC exptypes.EntityMap
+				if err := wantC.UnmarshalJSONWithSchema([]byte(doc(attrs(sdE, syE))), rs); err != nil || !types.EntityMap(wantC)[user].Equal(types.EntityMap(got)[user]) {
+					problems = append(problems, fmt.Sprintf("schema-mixed-%d:differs", mask))
+				}
+				sdv, _ := types.EntityMap(got)[user].Attributes.Get("sd")
+				if set, ok := sdv.(types.Set); !ok || set.Len() != 3 {
+					problems = append(problems, fmt.Sprintf("schema-mixed-%d:lost-members", mask))
+				}
+			}
+		}
+	}
 	if len(problems) == 0 {
 		return L(A("ok"))
 	}
